@@ -204,7 +204,9 @@ class Hexital:
         self._indicators.pop(name, None)
 
     def append(self, candles: Candle | List[Candle] | dict | List[dict] | list | List[list]):
-        for candle_manager in self._candles.values():
+        # The default manager takes ownership of the given candles and may convert them in place,
+        # so every other manager must take its copy first.
+        for candle_manager in reversed(list(self._candles.values())):
             candle_manager.append(candles)
 
         self.calculate()
